@@ -37,7 +37,9 @@ fn prim(v: &Val, bad_stream: &Option<Primitive>) -> Primitive {
     }
 }
 
-pub struct Base { pub name: String, pub bytes: Vec<u8>, pub direct: Vec<u64>, pub compressed: Vec<u64>, pub a_stream: Option<u64>, pub snapshot: BTreeMap<u64, String>, pub size: u64 }
+pub struct Base { pub name: String, pub bytes: Vec<u8>, pub direct: Vec<u64>, pub compressed: Vec<u64>, pub a_stream: Option<u64>, pub snapshot: BTreeMap<u64, String>, pub size: u64,
+    /// numbers below /Size that designate no object (free with a generation below 65535, or without any entry): an update may define them
+    pub unused: Vec<u64> }
 
 fn gen_val(s: &mut Src, tag: &mut u32) -> Val {
     *tag += 1;
@@ -50,7 +52,7 @@ fn gen_case(s: &mut Src, bases: &[Base]) -> Case {
     let n = 2 + s.draw(12);
     let mut steps = Vec::new();
     let mut tag = 0u32;
-    let mut n_targets = bases[base].direct.len().min(4) + bases[base].compressed.len().min(3);
+    let mut n_targets = bases[base].direct.len().min(4) + bases[base].compressed.len().min(3) + bases[base].unused.len().min(2);
     let mut n_promises = 0usize;
     let mut pending_bad = false;
     for _ in 0..n {
@@ -93,7 +95,7 @@ macro_rules! run_history {
         let c: &Case = $c;
         // the model: id -> digest of the last value written; targets the history can address
         let mut model: BTreeMap<u64, String> = BTreeMap::new();
-        let mut targets: Vec<PlainRef> = b.direct.iter().take(4).chain(b.compressed.iter().take(3)).map(|&id| PlainRef { id, gen: 0 }).collect();
+        let mut targets: Vec<PlainRef> = b.direct.iter().take(4).chain(b.compressed.iter().take(3)).chain(b.unused.iter().take(2)).map(|&id| PlainRef { id, gen: 0 }).collect();
         let mut promises = Vec::new();
         let bad_stream = b.a_stream.and_then(|id| file.resolver().resolve(PlainRef { id, gen: 0 }).ok());
         let mut bad_target: Option<PlainRef> = None;
@@ -139,8 +141,10 @@ macro_rules! run_history {
                     let expect = model.get(&r.id).or(b.snapshot.get(&r.id));
                     let Some(expect) = expect else { continue };
                     match res.resolve(r) { Ok(p) => { let d = digest(&p, &res); if &d != expect { fail!(if model.contains_key(&r.id) { "read-your-writes-resolve" } else { "untouched-changed-before-save" }, "step {}: resolve({}) = {} expected {}", si, r.id, short(&d), short(expect)); } }
+                        Err(_) if expect.starts_with("Err(") => {} // a number that designates no object and has not been written yet
                         Err(e) => fail!("read-error", "step {}: resolve({}): {}", si, r.id, el(&e)) }
                     match res.get::<Primitive>(Ref::new(r)) { Ok(p) => { let d = digest(&p, &res); if &d != expect { fail!(if model.contains_key(&r.id) { "read-your-writes-get" } else { "untouched-changed-before-save" }, "step {}: get({}) = {} expected {}", si, r.id, short(&d), short(expect)); } }
+                        Err(_) if expect.starts_with("Err(") => {}
                         Err(e) => fail!("read-error", "step {}: get({}): {}", si, r.id, el(&e)) }
                 }
                 Step::FailingSave => {
@@ -209,7 +213,7 @@ fn oracle(c: &Case, bases: &[Base]) -> Option<(String, String)> {
     match r { Ok(x) => x, Err(p) => Some((p.signature(), p.describe())) }
 }
 
-pub fn make_base(name: &str, bytes: Vec<u8>) -> Option<Base> {
+pub fn make_base(name: &str, bytes: Vec<u8>, unused: Vec<u64>) -> Option<Base> {
     let f = FileOptions::uncached().load(bytes.clone()).ok()?;
     let res = f.resolver();
     let size = f.trailer.size.max(0) as u64;
@@ -242,21 +246,24 @@ pub fn make_base(name: &str, bytes: Vec<u8>) -> Option<Base> {
     direct.retain(|id| ok(*id));
     compressed.retain(|id| ok(*id));
     let _ = std::fs::remove_file(&tmp);
-    Some(Base { name: name.into(), bytes, direct, compressed, a_stream, snapshot, size })
+    let unused: Vec<u64> = unused.into_iter().filter(|id| snapshot.get(id).map(|s| s.starts_with("Err(")).unwrap_or(*id < size)).collect();
+    Some(Base { name: name.into(), bytes, direct, compressed, a_stream, snapshot, size, unused })
 }
 
 pub fn bases(seed: u64) -> Vec<Base> {
     let mut out = Vec::new();
     for s in crate::corpus::valid_files() {
-        if ["example.pdf", "xelatex.pdf", "pdf-sample.pdf", "offset.pdf", "formxobject.pdf", "libreoffice.pdf"].contains(&s.name.as_str()) { if let Some(b) = make_base(&s.name, s.bytes) { out.push(b); } }
+        if ["example.pdf", "xelatex.pdf", "pdf-sample.pdf", "offset.pdf", "formxobject.pdf", "libreoffice.pdf"].contains(&s.name.as_str()) { if let Some(b) = make_base(&s.name, s.bytes, vec![]) { out.push(b); } }
     }
     for (i, l) in [crate::richdoc::Layout::Classic, crate::richdoc::Layout::XrefStream, crate::richdoc::Layout::Incremental].iter().enumerate() {
-        if let Some(b) = make_base(&format!("rich-{}", i), crate::richdoc::write(&crate::richdoc::objects(), *l, if i == 1 { b"junk before the header\n" } else { b"" })) { out.push(b); }
+        if let Some(b) = make_base(&format!("rich-{}", i), crate::richdoc::write(&crate::richdoc::objects(), *l, if i == 1 { b"junk before the header\n" } else { b"" }), vec![]) { out.push(b); }
     }
     for k in 0..3u64 {
         let mut s = Src::fresh(Rng::derive(seed, 900, k));
         let plan = crate::props::c02::gen_plan(&mut s, 8, 3);
-        if let Some(b) = make_base(&format!("history-{}", k), crate::props::c02::build(&plan).bytes) { out.push(b); }
+        let built = crate::props::c02::build(&plan);
+        let unused: Vec<u64> = built.unused_numbers().into_iter().filter(|(_, g)| *g != Some(65535)).map(|(n, _)| n as u64).collect();
+        if let Some(b) = make_base(&format!("history-{}", k), built.bytes, unused) { out.push(b); }
     }
     out
 }
@@ -264,10 +271,10 @@ pub fn bases(seed: u64) -> Vec<Base> {
 fn witness(c: &Case, bases: &[Base]) -> Value { json!({"base": bases[c.base].name, "cfg": c.cfg.name(), "steps": c.steps.iter().map(|s| format!("{:?}", s)).collect::<Vec<_>>() }) }
 
 pub fn run(run: &Run) {
-    run.rule("histories (<= 14 steps + optional continuation on the reloaded document) over {create v, update r v, promise, fulfil p v, read r (resolve and get), save, failing save (an unserialisable in-file stream value, then replace the offender and save again)} on base files: example.pdf (classic), xelatex/pdf-sample/libreoffice (xref stream + compressed objects), offset.pdf and a generated file with junk before the header, generated rich documents in 3 layouts, generated multi-section histories; update targets: direct, compressed, created and promised objects; values uniquely tagged dictionaries, integers, names, strings, arrays, streams; cached and uncached. Oracle: sequential model ref -> last value + snapshot of the base from a separate uncached load: read-your-writes before save, previous revision is a byte prefix, strict and tolerant reload resolves every model entry under the very reference and every untouched object to the snapshot, open document still right after save. distinct_nontrivial = distinct (base, history) with at least one save");
+    run.rule("histories (<= 14 steps + optional continuation on the reloaded document) over {create v, update r v, promise, fulfil p v, read r (resolve and get), save, failing save (an unserialisable in-file stream value, then replace the offender and save again)} on base files: example.pdf (classic), xelatex/pdf-sample/libreoffice (xref stream + compressed objects), offset.pdf and a generated file with junk before the header, generated rich documents in 3 layouts, generated multi-section histories; update targets: direct, compressed, created and promised objects, and (generated multi-section bases) numbers that designate no object — free with a generation below 65535 or without an entry; values uniquely tagged dictionaries, integers, names, strings, arrays, streams; cached and uncached. Oracle: sequential model ref -> last value + snapshot of the base from a separate uncached load: read-your-writes before save, previous revision is a byte prefix, strict and tolerant reload resolves every model entry under the very reference and every untouched object to the snapshot, open document still right after save. distinct_nontrivial = distinct (base, history) with at least one save");
     run.assume("update is only applied to in-use, created or promised objects (updating a free or undefined number is outside the statement)");
     let bs = bases(run.seed);
-    for b in &bs { run.count(&format!("base:{}:direct{}:compressed{}", b.name, b.direct.len().min(4), b.compressed.len().min(3))); }
+    for b in &bs { run.count(&format!("base:{}:direct{}:compressed{}", b.name, b.direct.len().min(4), b.compressed.len().min(3))); if !b.unused.is_empty() { run.count(&format!("base:{}:unused-number-targets{}", b.name, b.unused.len().min(2))); } }
     let n = run.n(12_000, 300_000);
     par_for(n, |i| {
         run.eval();
@@ -275,6 +282,11 @@ pub fn run(run: &Run) {
             run.nontrivial(fnv(format!("{:?}", c).as_bytes()));
             for st in &c.steps { run.count(match st { Step::Create(_) => "op:create", Step::Update(..) => "op:update", Step::Promise => "op:promise", Step::Fulfil(..) => "op:fulfil", Step::Read(_) => "op:read", Step::Save => "op:save", Step::FailingSave => "op:failing-save", Step::ContinueOnReload => "op:continue-on-reload" }); }
             for l in &s.labels { run.count(&format!("label:{}", l)); }
+            {
+                // updates that define a number which designated no object in the base (index into the initial target list)
+                let b = &bs[c.base]; let (lo, hi) = (b.direct.len().min(4) + b.compressed.len().min(3), b.direct.len().min(4) + b.compressed.len().min(3) + b.unused.len().min(2));
+                for st in &c.steps { if let Step::Update(ti, _) = st { if *ti >= lo && *ti < hi { run.count("op:update-of-unused-number"); } } }
+            }
             if i < 4 { run.sample(witness(c, &bs)); }
         });
     });
